@@ -71,7 +71,8 @@ type Engine struct {
 	// options
 	LightQueries   bool // run scalar queries after each tx
 	NoDumpCheck    bool
-	NoModeTwin     bool // do not run each transaction in simulation mode first
+	DepositNonces  map[uint64]bool // outbound nonces under which a deposit of this history announced its burn
+	NoModeTwin     bool            // do not run each transaction in simulation mode first
 	NoPositionTwin bool
 	RecordBlocks   bool // keep the bytes and results of every delivered block (block-partition replays)
 	BlockLog       [][][]byte
@@ -1001,7 +1002,8 @@ func (e *Engine) checkEvents(tx *Tx, rep *Report) {
 				base = []string{"C09", "C06"}
 			}
 			if err != nil {
-				e.viol(base, "message-sent", "sent-malformed", "MessageSent is not a well-formed CCTP message: "+err.Error(), e.caseOf(tx, hex.EncodeToString(raw)))
+				// a message that cannot be decoded carries no nonce either
+				e.viol(append(append([]string{}, base...), "C07"), "message-sent", "sent-malformed", "MessageSent is not a well-formed CCTP message: "+err.Error(), e.caseOf(tx, hex.EncodeToString(raw)))
 				continue
 			}
 			chk := func(field string, ok bool, props ...string) {
@@ -1344,6 +1346,31 @@ func (e *Engine) recordEmitted(tx *Tx, rep *Report) {
 // the model in line with what is observable (export + pending-owner getter).
 func (e *Engine) adoptObserved(tx *Tx, rep *Report) {
 	obs := e.Observe()
+	// whatever is don't-care about the request, a link or unlink of one key leaves every other token pair as it was
+	if len(tx.Msgs) == 1 {
+		var k *pairKey
+		switch x := tx.Msgs[0].(type) {
+		case *ct.MsgLinkTokenPair:
+			k = &pairKey{x.RemoteDomain, string(x.RemoteToken)}
+		case *ct.MsgUnlinkTokenPair:
+			k = &pairKey{x.RemoteDomain, string(x.RemoteToken)}
+		}
+		if k != nil {
+			e.Rc.Cov.Assert("C19.other-pairs-untouched")
+			for ok, ov := range e.M.Pairs {
+				if nv, has := obs.Pairs[ok]; ok != *k && (!has || nv != ov) {
+					e.viol([]string{"C19", "C15"}, "registry-interference", "C19:pair-request-changed-another-pair",
+						fmt.Sprintf("a request naming token pair (%d, %x) changed the entry (%d, %x): local token %q -> %q (present %v)", k.Domain, k.Token, ok.Domain, ok.Token, ov, nv, has), e.caseOf(tx, ""))
+				}
+			}
+			for nk := range obs.Pairs {
+				if _, had := e.M.Pairs[nk]; !had && nk != *k {
+					e.viol([]string{"C19", "C15"}, "registry-interference", "C19:pair-request-created-another-pair",
+						fmt.Sprintf("a request naming token pair (%d, %x) created the entry (%d, %x)", k.Domain, k.Token, nk.Domain, nk.Token), e.caseOf(tx, ""))
+				}
+			}
+		}
+	}
 	obs.Emitted = e.M.Emitted
 	obs.Minted, obs.Burned, obs.AcceptedBurnMsg = e.M.Minted, e.M.Burned, e.M.AcceptedBurnMsg
 	// every producer message of a successful transaction took exactly one nonce, whatever else is don't-care about it
@@ -1594,6 +1621,16 @@ func (e *Engine) trackConservation(tx *Tx, rep *Report) {
 				if b, err := ref.DecodeBurn(d.Body); err == nil {
 					e.SumDeposits.Add(e.SumDeposits, b.Amount)
 				}
+				// model-independent: every deposit announces its burn under an outbound nonce of its own
+				if e.DepositNonces == nil {
+					e.DepositNonces = map[uint64]bool{}
+				}
+				e.Rc.Cov.Assert("C05.deposit-nonce-of-its-own")
+				if e.DepositNonces[d.Nonce] {
+					e.viol([]string{"C05", "C07"}, "deposit-nonce", "C05:deposit-announced-under-a-used-nonce",
+						fmt.Sprintf("a deposit announced its burn under outbound nonce %d, under which an earlier deposit of this history already announced another burn", d.Nonce), e.caseOf(tx, hex.EncodeToString(raw)))
+				}
+				e.DepositNonces[d.Nonce] = true
 			}
 		}
 	}
